@@ -34,56 +34,59 @@ Theorem C08_rule_starting_with_subderivation_partial : forall n T dr c p,
 Proof. intros n T dr c p H. split; [apply nonterminal_from_init; exact H|reflexivity]. Qed.
 
 (* ---- every derivation -------------------------------------------------------------------------------------------
-   Hypotheses: the loader invariants TInv for the ARPA file M; no separate rest costs (e_rest = e_prob: every model type
-   except RestProbing); and the property's precondition as the tables see it -- the extension bit of a back-off is only
-   found on n-grams that are contexts of longer n-grams (the loaders set it for contexts and for non-zero back-offs, and
-   the precondition says only contexts have non-zero back-offs); unigrams are exempt (the synthesised <unk> carries +0.0).  LM/FlattenCheck.v gives a sound executable check of the
-   last two; LM/InvCheck.v of the first.
+   Parameters: `dr` = Search::kDifferentRest (true for RestProbingModel: rest costs differ from probabilities and
+   InternalUnRest converts them when a left state is completed).
+   Hypotheses: the loader invariants TInv for the ARPA file M; `dr = false -> rest = prob` (models without separate rest
+   costs store rest = prob; with dr = true the rest costs are ARBITRARY); and the property's precondition as the tables see
+   it -- the extension bit of a back-off is only found on n-grams that are contexts of longer n-grams (the loaders set it
+   for contexts and for non-zero back-offs, and the precondition says only contexts have non-zero back-offs); unigrams are
+   exempt (the synthesised <unk> carries +0.0).  LM/FlattenCheck.v gives a sound executable check of the last two
+   (for dr = false); LM/InvCheck.v of the first.
    `good t`: every terminal is a known word and no inner rule applies <s>.  `flat` = Terminal applied word by word. *)
 From Kenlm Require Import LM.FlattenProofs LM.FlattenCheck LM.InvCheck.
 
 (* NonTerminal of a finished fragment is Terminal applied to each of its words (up to the left state being reported
-   complete once it holds N-1 pointers, which is what Finish() does anyway). *)
-Theorem C08_nonterminal_is_terminals : forall n T M, (2 <= n)%nat -> TInv n T M ->
-  (forall k e, T k = Some e -> e_rest e = e_prob e) ->
+   complete once it holds N-1 pointers, which is what Finish() does anyway) -- with or without separate rest costs. *)
+Theorem C08_nonterminal_is_terminals : forall n T M dr, (2 <= n)%nat -> TInv n T M ->
+  (dr = false -> forall k e, T k = Some e -> e_rest e = e_prob e) ->
   (forall k e, T k = Some e -> e_ext e = true -> (2 <= length k)%nat -> exists x, T (x :: k) <> None) ->
   forall ws R, wf R -> Forall (known T) ws ->
-  norm n (rs_nonterminal n T false R (fst (rs_finish n (flat n T rs_init ws))) (snd (rs_finish n (flat n T rs_init ws)))) =
+  norm n (rs_nonterminal n T dr R (fst (rs_finish n (flat n T rs_init ws))) (snd (rs_finish n (flat n T rs_init ws)))) =
   norm n (flat n T R ws).
-Proof. intros n T M Hn I Hr Hx ws R WR Hk. exact (nt_flat n Hn T M I Hr Hx ws R WR Hk). Qed.
+Proof. intros n T M dr Hn I Hr Hx ws R WR Hk. exact (nt_flat n Hn T M I dr Hr Hx ws R WR Hk). Qed.
 
 (* Any bracketing, any mix of Terminal / NonTerminal / BeginNonTerminal: the chart state and the score of a derivation
-   are those of scoring its words left to right with Terminal. *)
-Theorem C08_any_bracketing : forall n T M, (2 <= n)%nat -> TInv n T M ->
-  (forall k e, T k = Some e -> e_rest e = e_prob e) ->
+   are those of scoring its words left to right with Terminal -- for every model type, rest costs included. *)
+Theorem C08_any_bracketing : forall n T M dr, (2 <= n)%nat -> TInv n T M ->
+  (dr = false -> forall k e, T k = Some e -> e_rest e = e_prob e) ->
   (forall k e, T k = Some e -> e_ext e = true -> (2 <= length k)%nat -> exists x, T (x :: k) <> None) ->
   forall bs t, good T t ->
-  eval_tree n T false bs t = rs_finish n (flat n T rs_init (yield t)).
-Proof. intros n T M Hn I Hr Hx bs t Hg. exact (proj1 (tree_flat n Hn T M I Hr Hx bs t Hg)). Qed.
+  eval_tree n T dr bs t = rs_finish n (flat n T rs_init (yield t)).
+Proof. intros n T M dr Hn I Hr Hx bs t Hg. exact (proj1 (tree_flat n Hn T M I dr Hr Hx bs t Hg)). Qed.
 
-(* ... hence its total is the sum of the ARPA back-off scores of its words from the null context, and its right state
-   is the state of the whole word sequence *)
-Theorem C08_any_bracketing_total : forall n T M, (2 <= n)%nat -> TInv n T M ->
+(* ... hence, for models without separate rest costs, the total of every fragment on its own is the sum of the ARPA
+   back-off scores of its words from the null context, and its right state is the state of the whole word sequence *)
+Theorem C08_any_bracketing_total : forall n T M dr, (2 <= n)%nat -> TInv n T M ->
   (forall k e, T k = Some e -> e_rest e = e_prob e) ->
   (forall k e, T k = Some e -> e_ext e = true -> (2 <= length k)%nat -> exists x, T (x :: k) <> None) ->
   forall bs t, good T t ->
-  snd (eval_tree n T false bs t) = fold_right Z.add 0 (spec_seq n M [] (yield t)) /\
-  c_right (fst (eval_tree n T false bs t)) = (if yield t then null_state else get_state n T (rev (yield t))).
-Proof. intros n T M Hn I Hr Hx bs t Hg. exact (any_bracketing_fragment n Hn T M I Hr Hx bs t Hg). Qed.
+  snd (eval_tree n T dr bs t) = fold_right Z.add 0 (spec_seq n M [] (yield t)) /\
+  c_right (fst (eval_tree n T dr bs t)) = (if yield t then null_state else get_state n T (rev (yield t))).
+Proof. intros n T M dr Hn I Hr Hx bs t Hg. exact (any_bracketing_fragment n Hn T M I dr (fun _ => Hr) Hx bs t Hr Hg). Qed.
 
 (* A sentence: the root rule applies <s>, then any derivation: complete empty left state, the left-to-right right state,
-   and the sum of the ARPA back-off scores of the words after <s>. *)
-Theorem C08_any_bracketing_sentence : forall n T M, (2 <= n)%nat -> TInv n T M ->
-  (forall k e, T k = Some e -> e_rest e = e_prob e) ->
+   and the sum of the ARPA back-off scores of the words after <s> -- also for rest-cost models, whatever the rest costs. *)
+Theorem C08_any_bracketing_sentence : forall n T M dr, (2 <= n)%nat -> TInv n T M ->
+  (dr = false -> forall k e, T k = Some e -> e_rest e = e_prob e) ->
   (forall k e, T k = Some e -> e_ext e = true -> (2 <= length k)%nat -> exists x, T (x :: k) <> None) ->
   forall b fast items, good_items T items ->
-  eval_tree n T false (bos_state T b) (Rule true fast items) =
+  eval_tree n T dr (bos_state T b) (Rule true fast items) =
   ({| c_left := {| l_ptrs := []; l_full := true |};
       c_right := (if yield_items items then bos_state T b else get_state n T (rev (yield_items items) ++ [b])) |},
    fold_right Z.add 0 (spec_seq n M [b] (yield_items items))).
 Proof.
-  intros n T M Hn I Hr Hx b fast items Hg.
-  exact (any_bracketing_sentence n Hn T M I Hr Hx (bos_state T b) eq_refl b fast items eq_refl Hg).
+  intros n T M dr Hn I Hr Hx b fast items Hg.
+  exact (any_bracketing_sentence n Hn T M I dr Hr Hx (bos_state T b) eq_refl b fast items eq_refl Hg).
 Qed.
 
 (* the executable check of the two extra hypotheses is sound; with C01_inv_check_sound the harness establishes all
@@ -93,38 +96,43 @@ Theorem C08_flat_hyp_check_sound : forall t, flat_hyp_check t = true ->
   (forall k e, alookup t k = Some e -> e_ext e = true -> (2 <= length k)%nat -> exists x, alookup t (x :: k) <> None).
 Proof. exact flat_hyp_check_sound. Qed.
 
+(* for rest-cost tables only the second hypothesis is needed *)
+Theorem C08_ext_ctx_check_sound : forall t, ext_ctx_check t = true ->
+  forall k e, alookup t k = Some e -> e_ext e = true -> (2 <= length k)%nat -> exists x, alookup t (x :: k) <> None.
+Proof. exact ext_ctx_check_sound. Qed.
+
 (* lm/partial.hh Subsume: merging two adjacent finished fragments gives the finished fragment of their concatenation
    (left state, right state) and the adjustment is exactly the whole minus the parts: score(us ++ ws) = score(us) +
    score(ws) + adjustment.  (mkrs P r d p is the rule state with pointers P, right state r, completeness d, score p.) *)
-Theorem C08_subsume_is_concatenation : forall n T M, (2 <= n)%nat -> TInv n T M ->
-  (forall k e, T k = Some e -> e_rest e = e_prob e) ->
+Theorem C08_subsume_is_concatenation : forall n T M dr, (2 <= n)%nat -> TInv n T M ->
+  (dr = false -> forall k e, T k = Some e -> e_rest e = e_prob e) ->
   (forall k e, T k = Some e -> e_ext e = true -> (2 <= length k)%nat -> exists x, T (x :: k) <> None) ->
   forall us ws, Forall (known T) us -> Forall (known T) ws ->
   forall adj l' r',
-  subsume n T false (c_left (fst (rs_finish n (flat n T rs_init us)))) (c_right (fst (rs_finish n (flat n T rs_init us))))
-                    (c_left (fst (rs_finish n (flat n T rs_init ws)))) (c_right (fst (rs_finish n (flat n T rs_init ws)))) = (adj, l', r') ->
+  subsume n T dr (c_left (fst (rs_finish n (flat n T rs_init us)))) (c_right (fst (rs_finish n (flat n T rs_init us))))
+                 (c_left (fst (rs_finish n (flat n T rs_init ws)))) (c_right (fst (rs_finish n (flat n T rs_init ws)))) = (adj, l', r') ->
   rs_finish n (mkrs (l_ptrs l') r' (l_full l') (snd (rs_finish n (flat n T rs_init us)) + snd (rs_finish n (flat n T rs_init ws)) + adj)) =
   rs_finish n (flat n T rs_init (us ++ ws)).
-Proof. intros n T M Hn I Hr Hx us ws Hu Hw adj l' r' HS. exact (subsume_flat n Hn T M I Hr Hx us ws Hu Hw adj l' r' HS). Qed.
+Proof. intros n T M dr Hn I Hr Hx us ws Hu Hw adj l' r' HS. exact (subsume_flat n Hn T M I dr Hr Hx us ws Hu Hw adj l' r' HS). Qed.
 
 (* RevealAfter (seen from the fragment on the left) and RevealBefore (seen from the fragment on the right), revealing
    the whole neighbour at once, accumulate exactly the whole minus the parts.  (Revealing in several steps, seen > 0, is
    decided by differential execution and the whole-minus-parts oracle: no theorem.) *)
-Theorem C08_reveal_whole_minus_parts : forall n T M, (2 <= n)%nat -> TInv n T M ->
-  (forall k e, T k = Some e -> e_rest e = e_prob e) ->
+Theorem C08_reveal_whole_minus_parts : forall n T M dr, (2 <= n)%nat -> TInv n T M ->
+  (dr = false -> forall k e, T k = Some e -> e_rest e = e_prob e) ->
   (forall k e, T k = Some e -> e_ext e = true -> (2 <= length k)%nat -> exists x, T (x :: k) <> None) ->
   forall us ws, Forall (known T) us -> Forall (known T) ws ->
   let A := rs_finish n (flat n T rs_init us) in
   let B := rs_finish n (flat n T rs_init ws) in
   let whole := snd (rs_finish n (flat n T rs_init (us ++ ws))) in
-  fst (fst (reveal_after n T false (c_left (fst A)) (c_right (fst A)) (c_left (fst B)) 0)) = whole - snd A - snd B /\
-  fst (fst (reveal_before n T false (c_right (fst A)) 0 (l_full (c_left (fst A))) (c_left (fst B)) (c_right (fst B)))) = whole - snd A - snd B.
+  fst (fst (reveal_after n T dr (c_left (fst A)) (c_right (fst A)) (c_left (fst B)) 0)) = whole - snd A - snd B /\
+  fst (fst (reveal_before n T dr (c_right (fst A)) 0 (l_full (c_left (fst A))) (c_left (fst B)) (c_right (fst B)))) = whole - snd A - snd B.
 Proof.
-  intros n T M Hn I Hr Hx us ws Hu Hw A B whole.
-  rewrite (reveal_after_is_subsume n T false (c_left (fst A)) (c_right (fst A)) (c_left (fst B)) (c_right (fst B))).
-  rewrite (proj1 (reveal_before_is_subsume n T false (c_left (fst A)) (c_right (fst A)) (c_left (fst B)) (c_right (fst B)))).
-  destruct (subsume n T false (c_left (fst A)) (c_right (fst A)) (c_left (fst B)) (c_right (fst B))) as [[adj l'] r'] eqn:ES.
-  pose proof (subsume_flat n Hn T M I Hr Hx us ws Hu Hw adj l' r' ES) as HF.
+  intros n T M dr Hn I Hr Hx us ws Hu Hw A B whole.
+  rewrite (reveal_after_is_subsume n T dr (c_left (fst A)) (c_right (fst A)) (c_left (fst B)) (c_right (fst B))).
+  rewrite (proj1 (reveal_before_is_subsume n T dr (c_left (fst A)) (c_right (fst A)) (c_left (fst B)) (c_right (fst B)))).
+  destruct (subsume n T dr (c_left (fst A)) (c_right (fst A)) (c_left (fst B)) (c_right (fst B))) as [[adj l'] r'] eqn:ES.
+  pose proof (subsume_flat n Hn T M I dr Hr Hx us ws Hu Hw adj l' r' ES) as HF.
   apply (f_equal snd) in HF. cbn [fst snd] in *. unfold rs_finish at 1 in HF. cbn [snd mkrs rs_prob] in HF.
   unfold whole, A, B. split; lia.
 Qed.
